@@ -422,7 +422,9 @@ def polar_coordinates(
         return dist, np.arctan2(diff[..., 1], diff[..., 0])
 
     elif grid.dim == 3:
-        theta = np.arccos(diff[..., 2] / dist)
+        # the direction is undefined at the origin itself (where `dist == 0`). We pick
+        # an arbitrary finite angle there to avoid dividing zero by zero
+        theta = np.arccos(diff[..., 2] / np.where(dist > 0, dist, 1.0))
         phi = np.arctan2(diff[..., 1], diff[..., 0])
         return dist, theta, phi
 
